@@ -20,37 +20,7 @@
  * bytes behind the format's terminator. */
 #include "impl.h"
 #include "explore.h"
-#include "token.h"
-#define __tok_spec c10_real_tok_spec
-#include "token.c"
-#undef __tok_spec
-#include "c10_common.h"
-
-/* the tokenizer, interposed: remembers the specifier in flight */
-struct dt_spec_s
-__tok_spec(const char *fp, const char **ep)
-{
-	const char *e = NULL;
-	struct dt_spec_s r;
-	xt_fp = fp;
-	xt_ep = NULL;
-	xt_calls++;
-	r = c10_real_tok_spec(fp, &e);
-	xt_ep = e;
-	if (!xa_inside(fp) || (xt_fmt_lo != NULL && fp >= xt_fmt_lo && fp < xt_fmt_hi)) {
-		xt_in_fp = fp;
-		xt_in_ep = e;
-	}
-	if (ep != NULL) {
-		*ep = e;
-	}
-	return r;
-}
-
-static const char SF[] = "%YdbO_ths-aZ";
-static const char SI[] = "201-:TWb @+\x01";
-static const char SD[] = "190-+dmowrs/";
-#define NA	12
+#include "c10_tok.h"
 
 /* formats that are names, appended to the enumeration of Sf strings */
 static const char *const named_fmt[] = {
@@ -58,34 +28,6 @@ static const char *const named_fmt[] = {
 	"mdn", "matlab", "hijri", "ummulqura", "hms", "YMD", "x",
 };
 #define NNAMED	((uint64_t)(sizeof(named_fmt) / sizeof(*named_fmt)))
-
-static uint64_t
-nstrings(int maxlen)
-{
-	uint64_t n = 0, p = 1;
-	for (int l = 0; l <= maxlen; l++, p *= NA) {
-		n += p;
-	}
-	return n;
-}
-/* canonical order: by length, then by alphabet index */
-static size_t
-idx2str(uint64_t idx, const char *alpha, char *buf)
-{
-	uint64_t p = 1;
-	size_t len = 0;
-	while (idx >= p) {
-		idx -= p;
-		p *= NA;
-		len++;
-	}
-	for (size_t i = len; i-- > 0;) {
-		buf[i] = alpha[idx % NA];
-		idx /= NA;
-	}
-	buf[len] = '\0';
-	return len;
-}
 
 /* ---- functions under test ---- */
 enum { P_DT, P_D, P_T, NPARSER };
